@@ -84,11 +84,33 @@ type c08Def struct {
 	Binds  []c08Aux     `json:"binds,omitempty"` // (let (binds) (defun …)): variables captured by the definition
 	Sp     int          `json:"sp,omitempty"`    // spelling of the name in the defun form
 	Macro  bool         `json:"macro,omitempty"` // (defmacro name () body): a macro without parameters — for the model a function without parameters
+	// implementation-only spellings of a definition (the model always sees a plain defun):
+	// Tmpl: (defmacro name (n a) `(let ((n ,n) (a ,a)) body)) — a macro with parameters whose body is a
+	// backquote template; every argument form is evaluated once, left to right, in the caller's
+	// environment and the body sees the parameters: the meaning of the function (no &aux, no captured
+	// variables). The template is expanded and the expansion evaluated on every call.
+	Tmpl bool `json:"tmpl,omitempty"`
+	// Via: the defining form is a sub-form of a persistent code object: 1 (progn def), 2 (when t def),
+	// 3 the body of an installer function (defun inst () def) (inst). A step with Re set evaluates the
+	// code object of an earlier step with the same definition again.
+	Via int `json:"via,omitempty"`
+	Ser int `json:"ser,omitempty"` // number of the installer function
 }
+
+const (
+	c08ViaPlain = iota
+	c08ViaProgn
+	c08ViaWhen
+	c08ViaInstaller
+	c08Vias
+)
+
+// a definition whose defining form lives inside a code object that can be evaluated again
+func (d *c08Def) wrapped() bool { return d.Via != c08ViaPlain || len(d.Binds) > 0 }
 
 // the defining form: a macro without parameters is, for the model, a function without parameters
 func (d *c08Def) definer(styled bool) string {
-	if d.Macro && styled {
+	if (d.Macro || d.Tmpl) && styled {
 		return "defmacro"
 	}
 	return "defun"
@@ -148,6 +170,7 @@ type c08Step struct {
 	Name string   `json:"name,omitempty"` // undef: the function
 	Sp   int      `json:"sp,omitempty"`   // undef: spelling of the symbol
 	Tag  string   `json:"tag,omitempty"`
+	Re   bool     `json:"re,omitempty"` // def: the code object of an earlier def step with this definition is evaluated again
 }
 
 func c08Const(n int64) *c08Expr { return &c08Expr{Kind: "const", N: n} }
@@ -257,10 +280,19 @@ func c08VarName(name string, mangle func(string) string, styled bool) string {
 	return name
 }
 
+const c08TmplPrefix = "mp-"
+
 func (d *c08Def) lambdaList(b *strings.Builder, mangle func(string) string, styled bool) {
+	// the parameters of a template macro get names of their own: slip evaluates the expansion in the
+	// macro's scope, where a parameter named like a variable of the caller would hide it (the
+	// parameter is bound to the argument form)
+	pre := ""
+	if styled && d.Tmpl {
+		pre = c08TmplPrefix
+	}
 	ps := make([]string, len(d.Params))
 	for i, p := range d.Params {
-		ps[i] = c08VarName(p, mangle, styled)
+		ps[i] = pre + c08VarName(p, mangle, styled)
 	}
 	b.WriteString(strings.Join(ps, " "))
 	sep := func() {
@@ -275,7 +307,7 @@ func (d *c08Def) lambdaList(b *strings.Builder, mangle func(string) string, styl
 		sep()
 		b.WriteString(word)
 		for _, o := range ds {
-			fmt.Fprintf(b, " (%s %d)", o.Name, o.Val)
+			fmt.Fprintf(b, " (%s%s %d)", pre, o.Name, o.Val)
 		}
 	}
 	defaults("&optional", d.Opt)
@@ -299,6 +331,31 @@ func (s c08Step) text(mangle func(string) string, styled bool) string {
 		var ll strings.Builder
 		s.Def.lambdaList(&ll, mangle, styled)
 		name := c08Spell(mangle(s.Def.Name), s.Def.Sp)
+		if styled && s.Def.Tmpl {
+			name = c08Spell(mangle(s.Def.Name), s.Def.Sp&^3) // defmacro takes no package prefix
+		}
+		body := func() {
+			if styled && s.Def.Tmpl {
+				// the parameters are bound by a let in the template: `(let ((n ,n) (a ,a)) body)
+				b.WriteString("`(let (")
+				ps := append([]string{}, s.Def.Params...)
+				for _, o := range s.Def.Opt {
+					ps = append(ps, o.Name)
+				}
+				for i, v := range ps {
+					if i > 0 {
+						b.WriteByte(' ')
+					}
+					vn := c08VarName(v, mangle, styled)
+					b.WriteString("(" + vn + " ," + c08TmplPrefix + vn + ")")
+				}
+				b.WriteString(") ")
+				s.Def.Body.render(&b, mangle, styled)
+				b.WriteByte(')')
+				return
+			}
+			s.Def.Body.render(&b, mangle, styled)
+		}
 		if len(s.Def.Binds) > 0 {
 			var bs strings.Builder
 			for i, bd := range s.Def.Binds {
@@ -311,18 +368,41 @@ func (s c08Step) text(mangle func(string) string, styled bool) string {
 			}
 			if styled {
 				b.WriteString("(let (" + bs.String() + ") (" + s.Def.definer(styled) + " " + name + " (" + ll.String() + ") ")
-				s.Def.Body.render(&b, mangle, styled)
+				body()
 				b.WriteString("))")
 			} else {
 				b.WriteString("(defun-in (" + bs.String() + ") " + name + " (" + ll.String() + ") ")
-				s.Def.Body.render(&b, mangle, styled)
+				body()
 				b.WriteByte(')')
 			}
 			break
 		}
+		inst := ""
+		if styled {
+			switch s.Def.Via {
+			case c08ViaProgn:
+				b.WriteString("(progn ")
+			case c08ViaWhen:
+				b.WriteString("(when t ")
+			case c08ViaInstaller:
+				inst = mangle(fmt.Sprintf("inst%d", s.Def.Ser))
+				if s.Re {
+					// the installer exists: its body, the defining form, is evaluated again
+					b.WriteString("(" + inst + ")")
+					return b.String()
+				}
+				b.WriteString("(defun " + inst + " () ")
+			}
+		}
 		b.WriteString("(" + s.Def.definer(styled) + " " + name + " (" + ll.String() + ") ")
-		s.Def.Body.render(&b, mangle, styled)
+		body()
 		b.WriteByte(')')
+		if styled && s.Def.Via != c08ViaPlain {
+			b.WriteByte(')')
+			if inst != "" {
+				b.WriteString(" (" + inst + ")")
+			}
+		}
 	case "undef":
 		name := c08Spell(mangle(s.Name), s.Sp&^3)
 		if styled {
@@ -538,6 +618,9 @@ func (f *c08Filter) eval(e *c08Expr, env map[string]c08V, depth int) (c08V, bool
 			}
 			vals = append(vals, v)
 		}
+		if d.Tmpl {
+			f.steps += 3 + len(d.vars())
+		}
 		env2, okb := c08Bind(d, vals)
 		if !okb {
 			f.ok = false // wrong argument count / malformed keywords: not generated on purpose
@@ -678,6 +761,7 @@ type c08Program struct {
 }
 
 type c08Gen struct {
+	serN int // installer functions of the current program
 	globals []string // global variables of the program (uqg0, uqg1: unique per variant in the implementation text)
 	noCalls bool     // the definition being filled captures a variable that shadows a global one: no calls
 	capN  int // captured variables get names that are unique in the program (c0, d0, c1, …)
@@ -915,6 +999,17 @@ func (g *c08Gen) fill(i int, d *c08Def, callsInBinds bool) {
 		}
 	}
 	d.Body = g.body(i, vars)
+	d.Tmpl, d.Via = false, c08ViaPlain
+	if !d.Macro && len(d.Aux) == 0 && len(d.Binds) == 0 && len(d.Key) == 0 && r.Chance(22) {
+		// the function is spelled as a macro with a backquote template (same meaning: see c08Def.Tmpl)
+		d.Tmpl = true
+	}
+	if len(d.Binds) == 0 && r.Chance(25) {
+		// the defining form is a sub-form of a code object (progn, when, body of an installer function)
+		d.Via = 1 + r.Intn(c08Vias-1)
+		d.Ser = g.serN
+		g.serN++
+	}
 }
 
 // body of function i
@@ -967,6 +1062,7 @@ func (g *c08Gen) program() *c08Program {
 		g.funcs = append(g.funcs, &c08Def{Name: "mc", Macro: true, Sp: g.spelling(false)})
 	}
 	g.capN = 0
+	g.serN = 0
 	g.globals = nil
 	if r.Chance(45) {
 		g.globals = []string{"uqg0", "uqg1"}[:1+r.Intn(2)]
@@ -1010,12 +1106,23 @@ func (g *c08Gen) program() *c08Program {
 	// events
 	nev := []int{0, 0, 1, 1, 2, 3}[r.Intn(6)]
 	redefs := map[string]int{}
-	redefine := func(i int, tag string) {
+	redefine := func(i int, tag string) bool {
 		// a new definition of an existing function: same lambda list up to &aux, new &aux and body
 		old := g.funcs[i]
 		nd := &c08Def{Name: old.Name, Params: old.Params, Opt: old.Opt, Key: old.Key, Sp: g.spelling(!old.Macro), Macro: old.Macro}
 		g.fill(i, nd, true)
+		// a name stays what its first definition made it, a function or a template macro: a call site
+		// compiled while the name was a macro does not evaluate its arguments (callers of a macro are
+		// compiled again when it becomes a function: outside the property)
+		for q := 0; old.Tmpl && q < 40 && (len(nd.Aux) > 0 || len(nd.Binds) > 0); q++ {
+			g.fill(i, nd, true)
+		}
+		nd.Tmpl = old.Tmpl && len(nd.Aux) == 0 && len(nd.Binds) == 0
+		if old.Tmpl && !nd.Tmpl {
+			return false
+		}
 		p.Tail = append(p.Tail, c08Step{Kind: "def", Def: nd, Tag: tag})
+		return true
 	}
 	newCaller := func(q int, suffix string) {
 		// a caller defined now (compiled against the current cells), and evaluated
@@ -1030,7 +1137,52 @@ func (g *c08Gen) program() *c08Program {
 		if len(g.globals) > 0 && r.Chance(35) {
 			choice = 4
 		}
+		if r.Chance(22) {
+			choice = 5
+		}
 		switch choice {
+		case 5:
+			// an earlier definition is installed again by evaluating the code object of its defining
+			// form once more (a defun inside let / progn / when / the body of an installer function),
+			// after another definition of the name: the function is what was installed last
+			var cand []*c08Def
+			for _, st := range p.Tail {
+				if st.Kind == "def" && !st.Re && st.Def.wrapped() {
+					cand = append(cand, st.Def)
+				}
+			}
+			for _, d := range p.Defs {
+				if d.wrapped() {
+					cand = append(cand, d, d) // the first definition of a name: twice as likely
+				}
+			}
+			if len(cand) == 0 {
+				i := r.Intn(len(g.funcs))
+				redefine(i, "redef")
+				redefs[g.funcs[i].Name]++
+				p.Events = append(p.Events, fmt.Sprintf("redef%d", redefs[g.funcs[i].Name]))
+				break
+			}
+			d := cand[r.Intn(len(cand))]
+			last := d
+			for _, st := range p.Tail {
+				if st.Kind == "def" && st.Def.Name == d.Name {
+					last = st.Def
+				}
+			}
+			ev := "reinstall"
+			if last == d {
+				for i, fd := range g.funcs {
+					if fd.Name == d.Name {
+						redefine(i, "redef")
+						redefs[d.Name]++
+						againAll()
+						ev = "redef+reinstall"
+					}
+				}
+			}
+			p.Tail = append(p.Tail, c08Step{Kind: "def", Def: d, Tag: "reinstall", Re: true})
+			p.Events = append(p.Events, ev)
 		case 4:
 			// a global variable gets a new value (defvar of a bound variable changes nothing): every
 			// function compiled before or after sees it on its next call
@@ -1263,6 +1415,9 @@ func c08RunVariant(job *c08Job) *c08Result {
 	// kept objects of the eval steps (index = number of the eval step)
 	var kept []slip.Code
 	var keptText []string
+	// code objects of the definition steps, by text (a "redef" step evaluates the object again; when
+	// there is none — the shrinker dropped the step — the text is read afresh)
+	keptDef := map[string]slip.Code{}
 	n := len(job.Kinds)
 	switch job.Mode {
 	case "list", "list-obj":
@@ -1270,7 +1425,17 @@ func c08RunVariant(job *c08Job) *c08Result {
 			i := i
 			switch job.Kinds[i] {
 			case "def", "undef", "setq":
-				protect(i, func() slip.Object { return evalList(readOne(job.Texts[i])) })
+				protect(i, func() slip.Object {
+					code := readOne(job.Texts[i])
+					keptDef[job.Texts[i]] = code
+					return evalList(code)
+				})
+			case "redef":
+				if code, has := keptDef[job.Texts[i]]; has && job.Mode == "list-obj" {
+					protect(i, func() slip.Object { return evalList(code) })
+				} else {
+					protect(i, func() slip.Object { return evalList(readOne(job.Texts[i])) })
+				}
 			case "eval":
 				var code slip.Code
 				protect(i, func() slip.Object {
@@ -1317,8 +1482,19 @@ func c08RunVariant(job *c08Job) *c08Result {
 				protect(i, func() slip.Object {
 					code := readOne(job.Texts[i])
 					code.Compile()
+					keptDef[job.Texts[i]] = code
 					return evalCode(code)
 				})
+			case "redef":
+				if code, has := keptDef[job.Texts[i]]; has && job.Mode != "compiled-fresh" {
+					protect(i, func() slip.Object { return evalCode(code) })
+				} else {
+					protect(i, func() slip.Object {
+						code := readOne(job.Texts[i])
+						code.Compile()
+						return evalCode(code)
+					})
+				}
 			case "eval":
 				var code slip.Code
 				if pc, has := pre[i]; has {
@@ -1360,12 +1536,27 @@ func c08RunVariant(job *c08Job) *c08Result {
 				i++
 				continue
 			}
+			if job.Kinds[i] == "redef" {
+				ii := i
+				if code, has := keptDef[job.Texts[ii]]; has {
+					protect(ii, func() slip.Object { return evalCode(code) })
+				} else {
+					protect(ii, func() slip.Object {
+						code := readOne(job.Texts[ii])
+						code.Compile()
+						return evalCode(code)
+					})
+				}
+				i++
+				continue
+			}
 			if job.Kinds[i] == "undef" || job.Kinds[i] == "setq" {
 				// fmakunbound is evaluated when its form is reached: a batch of its own
 				ii := i
 				protect(ii, func() slip.Object {
 					code := readOne(job.Texts[ii])
 					code.Compile()
+					keptDef[job.Texts[ii]] = code
 					return evalCode(code)
 				})
 				i++
@@ -1393,6 +1584,9 @@ func c08RunVariant(job *c08Job) *c08Result {
 					res.Outs[q], res.Msgs[q] = "compile:"+out, msg
 				} else {
 					protect(q, func() slip.Object { return evalCode(code[q-start : q-start+1]) })
+				}
+				if job.Kinds[q] == "def" && out == "nil" {
+					keptDef[job.Texts[q]] = code[q-start : q-start+1]
 				}
 				if job.Kinds[q] == "eval" {
 					if out != "nil" {
@@ -1659,6 +1853,16 @@ func c08MakeJob(id int, mode string, steps []c08Step, suffix string) *c08Job {
 				kind = "setq"
 			}
 		}
+		if s.Kind == "def" && s.Def.Via != c08ViaPlain {
+			// a defining form inside progn / when / an installer function is no top-level definition for
+			// Code.Compile: it is evaluated where it stands (a batch of its own, like fmakunbound)
+			kind = "setq"
+		}
+		if s.Kind == "def" && s.Re && s.Def.Via != c08ViaInstaller {
+			// the kept code object of the earlier step with the same text is evaluated again (the
+			// installer function keeps its own: a Re step just calls it)
+			kind = "redef"
+		}
 		job.Kinds = append(job.Kinds, kind)
 		job.Js = append(job.Js, s.J)
 		if s.Kind == "again" {
@@ -1718,6 +1922,7 @@ func c08Construct(steps []c08Step, at int) string {
 		}
 	}
 	lambdaList, closure, macro := false, false, false
+	template, nested, reinstall := false, false, false
 	for i := 0; i <= at && i < len(steps); i++ {
 		s := steps[i]
 		switch s.Kind {
@@ -1736,6 +1941,15 @@ func c08Construct(steps []c08Step, at int) string {
 			}
 			if s.Def.Macro {
 				macro = true
+			}
+			if s.Def.Tmpl {
+				template = true
+			}
+			if s.Def.Via != c08ViaPlain {
+				nested = true
+			}
+			if s.Re {
+				reinstall = true
 			}
 			note(s.Def)
 			defined[s.Def.Name] = i
@@ -1779,6 +1993,15 @@ func c08Construct(steps []c08Step, at int) string {
 	}
 	if macro {
 		extra += " macro"
+	}
+	if template {
+		extra += " template"
+	}
+	if nested {
+		extra += " nested-def"
+	}
+	if reinstall {
+		extra += " reinstall"
 	}
 	if gvars > 0 {
 		extra += " gvar"
@@ -2180,6 +2403,78 @@ func c08SweepCells() []c08Cell {
 		c08Cell{"mutual-recursion/ev-od", []c08Step{def(evn, ""), def(odd, ""), ev(c08Call("ev", c08Const(5), c08Const(0))), ag(0)}},
 		c08Cell{"mutual-recursion/od-ev", []c08Step{def(odd, ""), def(evn, ""), ev(c08Call("ev", c08Const(5), c08Const(0))), ag(0)}},
 	)
+	// a definition spelled as a macro with a backquote template (`(let ((a ,a) (b ,b)) body)): the
+	// template is expanded on every call and must stay what was written — used twice, by different
+	// callers, with a body whose sub-forms sit under if / let / a call, recursive, redefined, forward
+	tm := func(d *c08Def) *c08Def { c := *d; c.Tmpl = true; return &c }
+	for _, p := range positions {
+		g1 := &c08Def{Name: "g", Params: []string{"x"}, Body: p.body(callH())}
+		// the macro's own body has the call position; k calls h, a function
+		k := func(q int64) *c08Def {
+			return tm(&c08Def{Name: "k", Params: []string{"x", "c"}, Body: c08If(c08Prim("<", c08Var("c"), c08Const(1)), c08Const(q), p.body(callH()))})
+		}
+		callG := c08Call("g", c08Const(3))
+		callK := func(x, c int64) *c08Expr { return c08Call("k", c08Const(x), c08Const(c)) }
+		gk := &c08Def{Name: "gk", Params: []string{"x"}, Body: c08Prim("+", c08Call("k", c08Var("x"), c08Const(0)), c08Call("k", c08Prim("+", c08Var("x"), c08Const(1)), c08Var("x")))}
+		cells = append(cells,
+			c08Cell{"template/callee/" + p.name, []c08Step{def(tm(h(0)), ""), def(g1, ""), ev(callG), ag(0), ev(c08Call("g", c08Const(4))), ag(0), ag(1)}},
+			c08Cell{"template/callee-forward/" + p.name, []c08Step{def(g1, ""), def(tm(h(0)), ""), ev(callG), ag(0), def(tm(h(1)), "redef"), ag(0), ev(callG)}},
+			c08Cell{"template/body/" + p.name, []c08Step{def(h(0), ""), def(k(7), ""), ev(callK(3, 0)), ev(callK(3, 1)), ag(0), ag(1), ev(callK(4, 1)), ev(callK(5, 0)), ag(0), ag(1)}},
+			c08Cell{"template/body-false-first/" + p.name, []c08Step{def(h(0), ""), def(k(7), ""), def(gk, ""), ev(c08Call("gk", c08Const(2))), ag(0), ev(c08Call("gk", c08Const(0))), ag(0), ag(1),
+				def(h(1), "redef"), ag(0), ag(1), def(k(8), "redef"), ag(0), ag(1)}},
+			c08Cell{"template/body-late/" + p.name, []c08Step{def(k(7), ""), ev(callK(3, 0)), ev(callK(3, 1)), def(h(0), "late"), ag(0), ag(1), ag(1), ag(0)}},
+		)
+	}
+	tfact := tm(fact)
+	cells = append(cells,
+		c08Cell{"template/self-recursion", []c08Step{def(tfact, ""), ev(c08Call("fa", c08Const(4), c08Const(0))), ag(0), ev(c08Call("fa", c08Const(2), c08Const(5))), ag(0)}},
+		c08Cell{"template/function-then-template", []c08Step{def(h(0), ""), def(&c08Def{Name: "g", Params: []string{"x"}, Body: callH()}, ""), ev(c08Call("g", c08Const(3))),
+			def(tm(h(1)), "redef"), ag(0), def(h(2), "redef"), ag(0)}},
+	)
+	// a defining form that is a sub-form of a persistent code object, evaluated again after another
+	// definition of the name: what was installed last counts (first definition of the name, after a
+	// forward reference, after fmakunbound; seen by callers compiled before, between and after)
+	for via := c08ViaPlain; via < c08Vias+1; via++ {
+		vname := []string{"let", "progn", "when", "installer", "let-template"}[via]
+		hv := func(q int64, ser int) *c08Def {
+			d := h(q)
+			d.Via, d.Ser = via, ser
+			if via == c08ViaPlain || via == c08Vias {
+				d.Via = c08ViaPlain
+				d.Binds = []c08Aux{{Name: fmt.Sprintf("c%d", ser), Init: c08Const(int64(ser))}}
+				d.Body = c08Prim("+", d.Body, c08Var(fmt.Sprintf("c%d", ser)))
+			}
+			if via == c08Vias {
+				d.Tmpl = true
+			}
+			return d
+		}
+		re := func(d *c08Def) c08Step { return c08Step{Kind: "def", Def: d, Tag: "reinstall", Re: true} }
+		// a plain top-level definition of the same kind (function or template macro)
+		hp := func(q int64) *c08Def {
+			d := h(q)
+			d.Tmpl = via == c08Vias
+			return d
+		}
+		for _, p := range positions {
+			if p.name != "body" && p.name != "prim-arg" && p.name != "if-then" {
+				continue
+			}
+			mk := func(name string) *c08Def { return &c08Def{Name: name, Params: []string{"x"}, Body: p.body(callH())} }
+			gB, gM := mk("gb"), mk("gm")
+			callOf := func(n string) *c08Expr { return c08Call(n, c08Const(3)) }
+			hA, hB := hv(0, 1), hv(1, 2)
+			top := ev(c08Call("h", c08Const(1), c08Const(1)))
+			cells = append(cells,
+				c08Cell{"reinstall/" + vname + "/first/" + p.name, []c08Step{def(hA, ""), def(gB, ""), ev(callOf("gb")), top, def(hB, "redef"), ag(0), ag(1),
+					def(gM, ""), ev(callOf("gm")), re(hA), ag(0), ag(1), ag(2), re(hB), ag(0), ag(1), ag(2), re(hA), ag(0), ag(1), ag(2)}},
+				c08Cell{"reinstall/" + vname + "/forward/" + p.name, []c08Step{def(gB, ""), def(hA, ""), ev(callOf("gb")), def(hB, "redef"), ag(0), re(hA), ag(0), re(hB), ag(0)}},
+				c08Cell{"reinstall/" + vname + "/same-again/" + p.name, []c08Step{def(hA, ""), def(gB, ""), ev(callOf("gb")), re(hA), ag(0), re(hA), ag(0)}},
+				c08Cell{"reinstall/" + vname + "/plain-between/" + p.name, []c08Step{def(hA, ""), def(gB, ""), ev(callOf("gb")), def(hp(5), "redef"), ag(0), re(hA), ag(0), def(hp(6), "redef"), ag(0)}},
+				c08Cell{"reinstall/" + vname + "/undefine/" + p.name, []c08Step{def(hA, ""), def(gB, ""), ev(callOf("gb")), undef("h"), ag(0), re(hA), ag(0), def(hB, "redef"), ag(0), undef("h"), re(hA), ag(0)}},
+			)
+		}
+	}
 	return cells
 }
 
